@@ -93,6 +93,11 @@ class SystemProblem:
             base["dyn"] = 1.0
             self.W = {t: ({e: 1.0 for e in self.eqnames} if t == "dyn" else {n: base[t] for n in self.names}) for t in T}
             self.Wspec = {"dyn": 1.0} if kind == "ode" else {}
+        # per-unknown observation slices (only meaningful for multi-output unknowns); None = whole output
+        self.obs_slice = {}
+        for n in self.names:
+            no = self.nets[n].n_out
+            self.obs_slice[n] = None if (no == 1 or rng.integers(3) == 0) else [[0, 1], [1, 2]][int(rng.integers(2))]
         self.t0 = 0.25
         self.u0 = {n: rng.uniform(-1, 1, self.nets[n].n_out) for n in self.names}
         self.fb = {n: float(rng.uniform(-0.5, 0.5)) for n in self.names}
@@ -125,6 +130,8 @@ class SystemProblem:
         extra = {}
         if getattr(self, "derivative_keys_dict", None) is not None:
             extra["derivative_keys_dict"] = self.derivative_keys_dict
+        if any(v is not None for v in self.obs_slice.values()):
+            extra["obs_slice_dict"] = {n: (jnp.s_[...] if v is None else jnp.s_[v[0]:v[1]]) for n, v in self.obs_slice.items()}
         if kind == "ode":
             return jinns.loss.SystemLossODE(
                 u_dict=u_dict, dynamic_loss_dict=dyn, **extra,
@@ -163,7 +170,8 @@ class SystemProblem:
                 sp = np.concatenate([np.repeat(rng.uniform(0, 1, (B, 1, 1)), nf, axis=2), sp], axis=1)
             self.border = sp
         self.obs_in = {n: rng.uniform(-1, 2, (B, D)) for n in self.names}
-        self.obs_val = {n: rng.uniform(-1, 1, (B, self.nets[n].n_out)) for n in self.names}
+        self.obs_val = {n: rng.uniform(-1, 1, (B, self.nets[n].n_out if self.obs_slice[n] is None
+                                               else self.obs_slice[n][1] - self.obs_slice[n][0])) for n in self.names}
 
     def any(self, p):
         return any(p in v for v in self.per_u.values())
@@ -239,9 +247,28 @@ class SystemProblem:
                 return float(np.mean([(self.V * np.mean([self.nets[n].val(np.concatenate([[self.pts[i, 0]], x]), eq_rows[0])[0]
                                                          for x in self.norm_samples]) - 1) ** 2 for i in range(B)]))
             out["norm_loss"] = wsum("norm", nrm)
+        def osl(n, v):
+            return v if self.obs_slice[n] is None else v[self.obs_slice[n][0]:self.obs_slice[n][1]]
+
         out["observations"] = wsum("obs", lambda n: float(np.mean(
-            [np.sum((self.nets[n].val(self.obs_in[n][i], eq_rows[i]) - self.obs_val[n][i]) ** 2) for i in range(B)])))
+            [np.sum((osl(n, self.nets[n].val(self.obs_in[n][i], eq_rows[i])) - self.obs_val[n][i]) ** 2) for i in range(B)])))
         return {k: v for k, v in out.items() if v is not None}
+
+
+def eqx_tree_at_obs_slice(loss, sl):
+    """rebuild a plain loss with the given obs_slice (static field): through dataclasses.replace-like copy"""
+    import dataclasses
+
+    import jax.numpy as jnp
+
+    obj = object.__new__(type(loss))
+    for f in dataclasses.fields(loss):
+        try:
+            object.__setattr__(obj, f.name, getattr(loss, f.name))
+        except AttributeError:
+            pass
+    object.__setattr__(obj, "obs_slice", jnp.s_[sl[0]:sl[1]])
+    return obj
 
 
 def run_case(case, rec):
@@ -381,6 +408,8 @@ def run_case(case, rec):
                 plain = jinns.loss.LossPDENonStatio(u=u, dynamic_loss=dl, loss_weights=jinns.loss.LossWeightsPDENonStatio(
                     dyn_loss=Wn["dyn"], boundary_loss=Wn["boundary"], norm_loss=Wn["norm"], observations=Wn["obs"],
                     initial_condition=Wn["ic"]), params=p1, **kw)
+        if sp.obs_slice[n] is not None:
+            plain = eqx_tree_at_obs_slice(plain, sp.obs_slice[n])
         b1 = sp.batch()
         if sp.any("obs"):
             b1 = jinns.data.append_obs_batch(b1, {"pinn_in": jnp.asarray(sp.obs_in[n]), "val": jnp.asarray(sp.obs_val[n]),
